@@ -375,7 +375,7 @@ func init() {
 	Register(&Engine{
 		ID:       "C13",
 		Anchors:  []string{"group.go:ServeHTTP", "match.go:AndMatcher", "match.go:OrMatcher", "match.go:restoreMatch", "group.go:Remove", "group.go:Add", "group.go:New"},
-		Cases:    func(t string) int { return map[string]int{"quick": 4000, "thorough": 100000}[t] },
+		Cases:    func(t string) int { return map[string]int{"quick": 40000, "thorough": 2000000}[t] },
 		Run:      runC13,
 		Directed: c13Directed,
 		Rule: "case = group of 1-6 routers whose matchers are random terms (depth <= 3) over Hosts, PathVersion, HeaderVersion, And, Or, nil, created by New or Add, with Remove/Use/duplicate-name steps in between; 6 x 12 requests (hosts x paths with repeated version segments x Accept headers); the model picks the first router whose matcher accepts the original request and the rewritten request, which is then sent to that router alone for comparison; " +
